@@ -488,6 +488,56 @@ func execC15Concurrent(c *child.Ctx, k detCase, cj []byte, pool [][]byte, cn [][
 	c.Count("concurrent_displays", int64(k.Handlers*concSteps*k.Consumers))
 }
 
+// execC15DecodedCopies: a message is decoded once (the way the proxy's handler or a
+// filter decodes it before passing it on), value copies of the decoded message go to
+// several consumers, and their first displays happen at the same moment.  Each of
+// them reads the canonical text.
+func execC15DecodedCopies(c *child.Ctx, k detCase, cj []byte, pool [][]byte, cn [][2]canon) {
+	runtime.GOMAXPROCS(16)
+	for _, i := range k.Order {
+		if i < 0 || i >= len(pool) {
+			continue
+		}
+		for li, lvl := range detLevels {
+			h := handler.New(fixedStart, lvl)
+			m, _ := h.GetMessage(append([]byte(nil), pool[i]...))
+			if m == nil {
+				continue
+			}
+			func() {
+				defer func() { recover() }() // crashes in decoding are C07's business
+				handler.Analyse(m)
+			}()
+			n := 2 + (i+li)%3
+			texts := make([]string, n)
+			var wg sync.WaitGroup
+			start := make(chan struct{})
+			for ci := 0; ci < n; ci++ {
+				wg.Add(1)
+				go func(ci int, cp handler.Message) {
+					defer wg.Done()
+					defer func() {
+						if rr := recover(); rr != nil {
+							texts[ci] = fmt.Sprintf("panic: %v", rr)
+						}
+					}()
+					<-start
+					texts[ci] = stripTime(cp.String(), &cp)
+				}(ci, *m)
+			}
+			close(start)
+			wg.Wait()
+			for ci := range texts {
+				if texts[ci] != cn[i][li].text[li] {
+					c.Violate("differs-from-canonical", fmt.Sprintf("frame %d (type %d) was decoded once and %d value copies of it were displayed at the same moment (level %v): copy %d reads differently from the canonical text: %s", i, m.MessageType, n, lvl, ci, diffText(texts[ci], cn[i][li].text[li])), cj)
+					return
+				}
+			}
+			c.Count("decoded_messages_whose_copies_were_displayed_together", 1)
+		}
+	}
+}
+
 // scribble overwrites the decoded form a consumer holds, as a consumer is free to do
 // with its own copy.
 func scribble(readable interface{}) {
@@ -692,6 +742,10 @@ func monC15(c *child.Ctx, replay json.RawMessage) {
 			execC15History(c, k, cj, pool, cn)
 		} else if k.Kind == "fanout" {
 			execC15FanOut(c, k, cj, pool, cn)
+		} else if k.Kind == "decodedcopies" {
+			execC15DecodedCopies(c, k, cj, pool, cn)
+		} else if k.Kind == "alltypes" {
+			// found by the sweep over all types; the sweep is part of every run
 		} else {
 			execC15Concurrent(c, k, cj, pool, cn)
 		}
@@ -790,6 +844,16 @@ func monC15(c *child.Ctx, replay json.RawMessage) {
 		}
 		cj := c.BeginV(k)
 		execC15FanOut(c, k, cj, pool, cn)
+		c.Eval(ref.Hash64(cj), true)
+	}
+	ndc := c.Share(c.Pick(80, 3000))
+	for i := 0; i < ndc; i++ {
+		k := detCase{PoolSeed: poolSeed, Kind: "decodedcopies", Seed: r.Uint64() >> 1}
+		for j := 0; j < 24; j++ {
+			k.Order = append(k.Order, r.Intn(len(pool)))
+		}
+		cj := c.BeginV(k)
+		execC15DecodedCopies(c, k, cj, pool, cn)
 		c.Eval(ref.Hash64(cj), true)
 	}
 	nc := c.Share(c.Pick(40, 1500))
